@@ -499,6 +499,37 @@ func (i *interpreter) guardCheck(m *omap, write bool) {
 	}
 }
 
+// watch: see rt.Watch.
+type watch struct {
+	mu *value // nil: no lock makes a plain access legal
+	id string
+}
+
+// watchCheck reports a plain (non-atomic) load or store of watched memory by a spawned
+// goroutine that does not write-hold the watch's mutex: other goroutines access that memory
+// with sync/atomic operations, so the plain access is a data race (and can lose an update).
+func (i *interpreter) watchCheck(a *value, write bool) {
+	w, ok := i.watches[a]
+	if !ok {
+		return
+	}
+	cur := i.sch.cur
+	if cur.id == 0 {
+		return
+	}
+	if w.mu != nil {
+		m := i.mutexOf(w.mu)
+		if m.writer == cur || (!write && m.readers[cur] > 0) {
+			return
+		}
+	}
+	what := "read"
+	if write {
+		what = "write"
+	}
+	i.ex.fail("race", w.id+"-plain-"+what, fmt.Sprintf("plain %s of memory that is otherwise accessed atomically, by goroutine %d (%s)", what, cur.id, cur.name), i.ex.modelOrNil())
+}
+
 type guard struct {
 	mu *value
 	id string
